@@ -137,7 +137,7 @@ func c16Format(c *Ctx, pool *Pool, i int, thorough bool) error {
 		c.ev.Count("format_inputs_valid", 1)
 	} else {
 		c.ev.Count("format_inputs_invalid", 1)
-		c.ev.Fired["invalid_input"]++
+		c.ev.Fire("invalid_input", 1)
 	}
 	c.ev.MarkDistinct(fmt.Sprintf("fmt|%x", sha8(in)))
 	if i < 2 {
@@ -165,6 +165,7 @@ func c16Format(c *Ctx, pool *Pool, i int, thorough bool) error {
 		}
 		c.ev.AddRecord(&o.Rec)
 		c.ev.Count("cli_worlds", 1)
+		c.event(fmt.Sprintf("c16fmt|%d|d", i), in, argv[:2], o.Exit, o.Stdout, treeSig(o, ""), opSig(o), ref.FormatOK, ref.FormatOut)
 		if !o.TimedOut {
 			if v := checkFormatD(ref, o); v != nil {
 				c.candidate16Format(i, "format-d", v, in, w, nil)
@@ -189,7 +190,8 @@ func c16Format(c *Ctx, pool *Pool, i int, thorough bool) error {
 	}
 	c.ev.AddRecord(&o.Rec)
 	c.ev.Count("cli_worlds", 1)
-	c.ev.Fired["disk0_shape_"+sh.name]++
+	c.ev.Fire("disk0_shape_"+sh.name, 1)
+	c.event(fmt.Sprintf("c16fmt|%d|f", i), w.Argv, sh.name, o.Exit, o.Stdout, treeSig(o, ""), opSig(o))
 	if !o.TimedOut {
 		if v := checkFormatF(ref, o, sh); v != nil {
 			c.candidate16Format(i, "format-f", v, in, w, &sh)
@@ -232,7 +234,13 @@ func checkFormatF(ref *Resp, o *CLIOutcome, sh fileShape) *c16Viol {
 	after, ok := o.After[sh.real]
 	before := o.Before[sh.real]
 	// siblings and every other pre-existing entry must be untouched in all cases
-	for p, b := range o.Before {
+	var beforePaths []string
+	for p := range o.Before {
+		beforePaths = append(beforePaths, p)
+	}
+	sort.Strings(beforePaths)
+	for _, p := range beforePaths {
+		b := o.Before[p]
 		if p == sh.real {
 			continue
 		}
@@ -420,7 +428,8 @@ func c16Host(c *Ctx, pool *Pool, i int, n int, realSO bool) error {
 		return nil
 	}
 	c.ev.Count("host_histories", 1)
-	c.ev.Fired["host_call_interleaved"] += len(spec.Calls)
+	c.event(fmt.Sprintf("c16host|%d|%v", i, realSO), spec, res)
+	c.ev.Fire("host_call_interleaved", len(spec.Calls))
 	c.ev.MarkDistinct(fmt.Sprintf("host|%x", seed))
 	if i == 0 && !realSO && len(spec.Calls) > 2 {
 		c.ev.AddSample(map[string]any{"entry": "FormatPacketDslExport host history", "threads": spec.Threads, "first_calls": []any{map[string]any{"thread": spec.Calls[0].Thread, "input": clip(string(spec.Calls[0].Input), 200)}, map[string]any{"thread": spec.Calls[1].Thread, "input": clip(string(spec.Calls[1].Input), 200)}}, "calls": len(spec.Calls)}, 6)
@@ -708,30 +717,42 @@ func c16Compile(c *Ctx, pool *Pool, i int, thorough bool) error {
 			continue
 		}
 		cc := &compileCase{targets: ts, long: r.Chance(1, 2), sub: r.Chance(1, 2), abs: r.Chance(1, 3), dirs: map[string]string{}, stale: r.Chance(1, 2), nested: r.Chance(1, 3)}
-		for _, t := range ts {
+		// flat layout: some or all targets share one output directory (file
+		// names of different languages do not collide, the union must appear)
+		shared := len(ts) >= 2 && r.Chance(1, 4)
+		sharedAll := r.Chance(1, 2)
+		for k, t := range ts {
 			d := targetDir[t]
+			if shared && (sharedAll || k%2 == 0) {
+				d = "out/all"
+			}
 			if cc.nested {
 				d = "gen/" + d + "/v1"
 			}
 			cc.dirs[t] = d
 		}
+		if shared {
+			c.ev.Fire("disk0_shared_output_dir", 1)
+		}
 		disk := []DiskEntry{{Path: "in.dsl", Kind: "file", Data: []byte(text)}}
 		disk = append(disk, unrelated...)
 		if cc.stale {
-			c.ev.Fired["disk0_stale_files"]++
+			c.ev.Fire("disk0_stale_files", 1)
 			for _, st := range ref.Steps {
-				for n, f := range cleanFiles(&st) {
+				cf := cleanFiles(&st)
+				for _, n := range sortedFileNames(cf) {
+					f := cf[n]
 					disk = append(disk, DiskEntry{Path: cc.dirs[st.Target] + "/" + n, Kind: "file", Data: append(append([]byte("STALE STALE STALE\n"), f.Data...), []byte("\ntrailing stale bytes that must disappear\n")...)})
 				}
 				disk = append(disk, DiskEntry{Path: cc.dirs[st.Target] + "/unrelated_old_file.txt", Kind: "file", Data: []byte("old\n")})
 			}
 		} else if r.Chance(1, 2) {
-			c.ev.Fired["disk0_existing_dirs"]++
+			c.ev.Fire("disk0_existing_dirs", 1)
 			for _, t := range ts {
 				disk = append(disk, DiskEntry{Path: cc.dirs[t], Kind: "dir"})
 			}
 		} else {
-			c.ev.Fired["disk0_missing_dirs"]++
+			c.ev.Fire("disk0_missing_dirs", 1)
 		}
 		w := &CLIWorld{Argv: cc.argv(), Disk0: disk, Sched: s0()}
 		o, err := c.sc.RunCLI(w)
@@ -746,6 +767,7 @@ func c16Compile(c *Ctx, pool *Pool, i int, thorough bool) error {
 			c.mu.Unlock()
 			continue
 		}
+		c.event(fmt.Sprintf("c16comp|%d|%s", i, strings.Join(ts, "+")), w.Argv, diskPaths(disk), o.Exit, treeSig(o, ""), opSig(o))
 		c.ev.MarkDistinct(fmt.Sprintf("compile|%x|%s|%v%v%v%v%v", seed, strings.Join(ts, "+"), cc.long, cc.sub, cc.abs, cc.stale, cc.nested))
 		if i == 0 && len(ts) == 6 {
 			c.ev.AddSample(map[string]any{"entry": "compile", "argv": w.Argv, "disk0_paths": diskPaths(disk), "program": text}, 6)
@@ -771,6 +793,15 @@ func c16Compile(c *Ctx, pool *Pool, i int, thorough bool) error {
 	return nil
 }
 
+func sortedFileNames(m map[string]FileOut) []string {
+	out := make([]string, 0, len(m))
+	for k := range m {
+		out = append(out, k)
+	}
+	sort.Strings(out)
+	return out
+}
+
 func diskPaths(d []DiskEntry) []string {
 	var out []string
 	for _, e := range d {
@@ -790,7 +821,8 @@ func checkCompile(ref *Resp, o *CLIOutcome, cc *compileCase) *c16Viol {
 			expected[cc.dirs[st.Target]+"/"+n] = f // later targets overwrite earlier ones in a shared dir, as the CLI does
 		}
 	}
-	for p, f := range expected {
+	for _, p := range sortedFileNames(expected) {
+		f := expected[p]
 		e, ok := o.After[p]
 		if !ok || e.Kind != "file" {
 			return &c16Viol{"missing:" + targetOfPath(cc, p), fmt.Sprintf("compile did not write %s, which the generator produced", p), nil}
@@ -864,7 +896,7 @@ func tail(s string, n int) string {
 func (c *Ctx) candidate16Compile(caseIdx int, prog *Prog, cc *compileCase, disk []DiskEntry, v *c16Viol) {
 	c.mu.Lock()
 	c.candidates++
-	coarse := "C16|compile|" + v.class
+	coarse := "C16|compile|" + strings.SplitN(v.class, ":", 2)[0]
 	if c.sigSeen["coarse:"+coarse] || c.processed >= 40 {
 		c.mu.Unlock()
 		return
